@@ -130,3 +130,6 @@ func vh_C01_norm_Q() { vhC01(1, 1, 1, 2, 5) }
 // two controllers x one route and one controller x two routes, plain shapes: interference between routes
 func vh_C01_two_ctrl_Q()   { vhC01(2, 1, -1, -1, 2) }
 func vh_C01_two_routes_Q() { vhC01(1, 2, -1, -1, 2) }
+
+// one controller with a slash-rich prefix x two plain routes: path items shared between verbs
+func vh_C01_two_routes_slashes_Q() { vhC01(1, 2, 1, -1, 2) }
